@@ -1606,3 +1606,49 @@ canary('c20-thread-local-buffer-emptied-on-success-only', 'C20', ENCF, _ENC_OLD,
 
 """ + _TL, 'thread-local-buffer-not-emptied-first')
 
+_PC_OLD = """    let owned_term = match parse_term(&decompressed, cache) {
+        Ok((remaining, term)) if remaining.is_empty() => term,
+        _ => return Err(nom::Err::Failure(NomError::new(input, ErrorKind::Fail))),
+    };
+
+    Ok((&rest[consumed..], owned_term))
+}
+"""
+_PC_TL = """
+thread_local! {
+    static COMPRESSED_NESTING: std::cell::Cell<u32> = const { std::cell::Cell::new(0) };
+}
+"""
+# a nesting counter for COMPRESSED inside COMPRESSED, kept on the thread: put back before the result is looked at ...
+benign('benign-c02-nesting-counter-restored', 'C02', DEC, _PC_OLD, """    let nesting = COMPRESSED_NESTING.get();
+    if nesting >= 8 {
+        return Err(nom::Err::Failure(NomError::new(input, ErrorKind::TooLarge)));
+    }
+    COMPRESSED_NESTING.set(nesting + 1);
+    let parsed = parse_term(&decompressed, cache);
+    COMPRESSED_NESTING.set(nesting);
+    let owned_term = match parsed {
+        Ok((remaining, term)) if remaining.is_empty() => term,
+        _ => return Err(nom::Err::Failure(NomError::new(input, ErrorKind::Fail))),
+    };
+
+    Ok((&rest[consumed..], owned_term))
+}
+""" + _PC_TL)
+# ... and the same with the restore after the early return: every refused compressed term leaves the counter one higher, after eight of them
+# every compressed term is refused on that thread
+canary('c02-nesting-counter-left-advanced', 'C02', DEC, _PC_OLD, """    let nesting = COMPRESSED_NESTING.get();
+    if nesting >= 8 {
+        return Err(nom::Err::Failure(NomError::new(input, ErrorKind::TooLarge)));
+    }
+    COMPRESSED_NESTING.set(nesting + 1);
+    let owned_term = match parse_term(&decompressed, cache) {
+        Ok((remaining, term)) if remaining.is_empty() => term,
+        _ => return Err(nom::Err::Failure(NomError::new(input, ErrorKind::Fail))),
+    };
+    COMPRESSED_NESTING.set(nesting);
+
+    Ok((&rest[consumed..], owned_term))
+}
+""" + _PC_TL, 'thread-local-not-restored-on-every-exit')
+
